@@ -10,10 +10,13 @@ import (
 	"context"
 	"fmt"
 	"os"
+	"path/filepath"
 	"slices"
 	"strings"
 	"testing"
+	"time"
 
+	"github.com/AdguardTeam/AdGuardDNS/internal/dnsmsg"
 	"github.com/AdguardTeam/AdGuardDNS/internal/filter"
 	"github.com/miekg/dns"
 	"pgregory.net/rapid"
@@ -38,6 +41,16 @@ func vc12BaseDir(tb testing.TB) string {
 	for _, d := range []string{"/dev/shm", os.Getenv("VERIF_WORK")} {
 		if d == "" {
 			continue
+		}
+
+		// A run that was killed (a data race halts the process) leaves its
+		// directory behind; sweep those that are clearly not in use any more.
+		if old, _ := filepath.Glob(filepath.Join(d, "verif-c12-*")); d == "/dev/shm" {
+			for _, o := range old {
+				if fi, statErr := os.Stat(o); statErr == nil && time.Since(fi.ModTime()) > 3*time.Hour {
+					_ = os.RemoveAll(o)
+				}
+			}
 		}
 
 		dir, err := os.MkdirTemp(d, "verif-c12-")
@@ -99,7 +112,7 @@ func (c *vc12Case) logf(format string, args ...any) {
 }
 
 func (c *vc12Case) history() string {
-	return fmt.Sprintf("hash-prefix replacement hosts %v small caches %t\n%s", c.conf.HPRepl, c.conf.SmallCaches, strings.Join(c.hist, "\n"))
+	return fmt.Sprintf("hash-prefix replacement hosts %v cache count %d\n%s", c.conf.HPRepl, c.conf.CacheCount, strings.Join(c.hist, "\n"))
 }
 
 func (c *vc12Case) failf(format string, args ...any) {
@@ -119,7 +132,7 @@ func (c *vc12Case) checkErrs(when string) {
 func vc12NewCase(t *rapid.T, st *vstat.Stats, srv *vc12Srv, base string, nClients int) (c *vc12Case) {
 	c = &vc12Case{
 		t: t, st: st, srv: srv,
-		conf:   &vc12SideConf{SmallCaches: rapid.IntRange(0, 3).Draw(t, "smallcaches") == 0},
+		conf:   &vc12SideConf{CacheCount: rapid.SampledFrom(vc12CacheCounts).Draw(t, "cachecount")},
 		seen:   map[string]map[int]int{},
 		last:   map[string]vc12Last{},
 		hpSeen: map[string][]vc12HPSeen{},
@@ -153,11 +166,12 @@ func vc12NewCase(t *rapid.T, st *vstat.Stats, srv *vc12Srv, base string, nClient
 	srv.takeHits()
 	c.checkErrs("initial refresh")
 
+	cloners := c.cloners()
 	for i := range nClients {
-		c.reqs = append(c.reqs, vc12DrawReq(t, i, false))
+		c.reqs = append(c.reqs, vc12DrawReq(t, i, false, cloners))
 	}
 
-	c.reqs = append(c.reqs, vc12DrawReq(t, nClients, true))
+	c.reqs = append(c.reqs, vc12DrawReq(t, nClients, true, cloners))
 	c.logf("world %+v", *c.w)
 	for _, r := range c.reqs {
 		c.logf("requester %+v", *r)
@@ -167,6 +181,61 @@ func vc12NewCase(t *rapid.T, st *vstat.Stats, srv *vc12Srv, base string, nClient
 }
 
 func (c *vc12Case) close() { _ = os.RemoveAll(c.dir) }
+
+func (c *vc12Case) cloners() [2]*dnsmsg.Cloner {
+	return [2]*dnsmsg.Cloner{c.cached.cloner, c.twin.cloner}
+}
+
+// vc12Scribble does to a message what the rest of the pipeline is free to do
+// with a message it owns: the forwarder gives a request a new ID and adds
+// options, the response writers truncate, pad and normalise.  Whatever the
+// filters keep must not be reachable through it.
+func vc12Scribble(m *dns.Msg) {
+	if m == nil {
+		return
+	}
+
+	m.Id = 0xFFFF
+	m.Truncated = true
+	m.AuthenticatedData = !m.AuthenticatedData
+	m.RecursionDesired = !m.RecursionDesired
+	for _, sec := range [][]dns.RR{m.Answer, m.Ns, m.Extra} {
+		for _, rr := range sec {
+			if opt, ok := rr.(*dns.OPT); ok {
+				opt.SetUDPSize(1)
+				opt.SetDo(!opt.Do())
+
+				// A reserved flag bit, as echoed from an upstream.
+				opt.Hdr.Ttl |= 1 << 14
+				opt.Option = append(opt.Option, &dns.EDNS0_PADDING{Padding: make([]byte, 7)})
+
+				continue
+			}
+
+			rr.Header().Ttl = 1
+		}
+	}
+}
+
+// release hands a result of the cache-enabled side back as the service does:
+// the message has been through the pipeline, and a response is returned to the
+// cloner's pools after it has been written (dnsserver disposes of it).  The
+// request message is the caller's again and is reused as well.
+func (c *vc12Case) release(res vc12Res, req *dns.Msg) {
+	vc12Scribble(req)
+	if len(req.Question) > 0 {
+		req.Question[0].Name = "scribbled.invalid."
+	}
+
+	if res.msg == nil {
+		return
+	}
+
+	vc12Scribble(res.msg)
+	if res.Kind == "modresp" {
+		c.cached.cloner.Dispose(res.msg)
+	}
+}
 
 // ---------------------------------------------------------------------------
 // operations
@@ -291,7 +360,8 @@ func (c *vc12Case) refreshHP() {
 func (c *vc12Case) customUpdate() {
 	t := c.t
 	r := c.reqs[rapid.IntRange(0, len(c.reqs)-2).Draw(t, "client")]
-	r.CustomUpd += rapid.IntRange(1, 3).Draw(t, "bump")
+	// The smallest step a time stamp can make is as good as a large one.
+	r.CustomUpd += rapid.SampledFrom([]int64{1, 1e9, 3e9}).Draw(t, "bump")
 	cls := "op-custom-touch"
 	switch rapid.IntRange(0, 4).Draw(t, "custommode") {
 	case 0:
@@ -314,7 +384,7 @@ func (c *vc12Case) customUpdate() {
 	}
 
 	c.epoch++
-	c.logf("CUSTOM %s: enabled=%t upd=+%ds rules=%v", r.Name, r.CustomEnabled, r.CustomUpd, r.CustomRules)
+	c.logf("CUSTOM %s: enabled=%t upd=%s rules=%v", r.Name, r.CustomEnabled, r.customTime().Format(time.RFC3339Nano), r.CustomRules)
 	c.st.Class(cls)
 }
 
@@ -409,18 +479,54 @@ func vc12HPKey(k int, q *vc12Q) string {
 	return fmt.Sprintf("%d|%s|%d|%d", k, q.Host, q.QT, q.QC)
 }
 
-// query sends one request through both storages.
-func (c *vc12Case) query() {
+// query sends one request through both storages.  With exchange, the upstream
+// response to it is sent through the same composite filters afterwards, as
+// mainmw does for every request whose question has not been rewritten.
+func (c *vc12Case) query(exchange bool) {
 	t := c.t
 	ri := rapid.IntRange(0, len(c.reqs)-1).Draw(t, "requester")
 	r := c.reqs[ri]
 
 	var q vc12Q
-	if len(c.asked) > 0 && rapid.IntRange(0, 9).Draw(t, "repeat") < 6 {
+	near := ""
+	switch mode := rapid.IntRange(0, 9).Draw(t, "repeat"); {
+	case len(c.asked) > 0 && mode < 4:
 		q = c.asked[rapid.IntRange(0, len(c.asked)-1).Draw(t, "which")]
-	} else {
+	case len(c.asked) > 0 && mode < 7:
+		// A near miss: an earlier key with exactly one component changed.
+		q = c.asked[rapid.IntRange(0, len(c.asked)-1).Draw(t, "which")]
+		switch rapid.IntRange(0, 3).Draw(t, "nearwhat") {
+		case 0, 1:
+			if qt := rapid.SampledFrom(vc12QTypes).Draw(t, "qt"); qt != q.QT {
+				q.QT, near = qt, "near-miss-qtype"
+			}
+		case 2:
+			if q.QC == dns.ClassINET {
+				q.QC, near = dns.ClassCHAOS, "near-miss-class"
+			} else {
+				q.QC, near = dns.ClassINET, "near-miss-class"
+			}
+		default:
+			// The parent, a child or the look-alike of the host.
+			var cand []string
+			for _, h := range vc12QueryHosts {
+				if h != q.Host && h != "" && q.Host != "" && !slices.Contains(cand, h) &&
+					(strings.HasSuffix(h, "."+q.Host) || strings.HasSuffix(q.Host, "."+h) || strings.HasSuffix(h, q.Host) || strings.HasSuffix(q.Host, h)) {
+					cand = append(cand, h)
+				}
+			}
+
+			if len(cand) > 0 {
+				q.Host, near = rapid.SampledFrom(cand).Draw(t, "nearhost"), "near-miss-host"
+			}
+		}
+
+		if near != "" {
+			c.asked = append(c.asked, q)
+		}
+	default:
 		q = vc12Q{
-			Host: rapid.SampledFrom(vc12Hosts).Draw(t, "host"),
+			Host: rapid.SampledFrom(vc12QueryHosts).Draw(t, "host"),
 			QT:   rapid.SampledFrom(vc12QTypes).Draw(t, "qt"),
 			QC:   dns.ClassINET,
 		}
@@ -434,13 +540,16 @@ func (c *vc12Case) query() {
 	vc12DrawFlags(t, &q, false)
 
 	ctx := context.Background()
-	gotRaw, err := c.cached.strg.ForConfig(ctx, r.config()).FilterRequest(ctx, q.request(r))
+	gotReq := q.request(r, 0)
+	fGot := c.cached.strg.ForConfig(ctx, r.config())
+	gotRaw, err := fGot.FilterRequest(ctx, gotReq)
 	if err != nil {
 		c.failf("cache-enabled storage: FilterRequest(%s by %s): %v", &q, r.Name, err)
 	}
 
 	c.twin.purge()
-	wantRaw, err := c.twin.strg.ForConfig(ctx, r.config()).FilterRequest(ctx, q.request(r))
+	fWant := c.twin.strg.ForConfig(ctx, r.config())
+	wantRaw, err := fWant.FilterRequest(ctx, q.request(r, 1))
 	if err != nil {
 		c.failf("reference storage: FilterRequest(%s by %s): %v", &q, r.Name, err)
 	}
@@ -451,6 +560,13 @@ func (c *vc12Case) query() {
 
 	key := fmt.Sprintf("%s/%d/%d/req", q.Host, q.QT, q.QC)
 	nt, classes := c.classify(ri, key, want)
+	classes = append(classes, near)
+	switch q.Host {
+	case "":
+		classes = append(classes, "host-root")
+	case "aa.test", "z.y.x.a.test":
+		classes = append(classes, "host-off-pool")
+	}
 
 	hpk := vc12HPIndex(want.List)
 	if hpk >= 0 {
@@ -472,7 +588,7 @@ func (c *vc12Case) query() {
 		if explained && c.st.Known(id) {
 			classes = append(classes, "excluded-"+id)
 		} else {
-			why := "not explained by a recorded finding"
+			why := "not explained by a recorded finding; the cache-enabled side also returns its responses to the cloner's pools, as dnsserver does, so state carried over by a pooled object shows here as well"
 			if explained {
 				why = fmt.Sprintf("the cache-enabled side replayed the message %s [%s]", detail, id)
 			}
@@ -481,12 +597,10 @@ func (c *vc12Case) query() {
 		}
 	}
 
-	// A modified response must answer this request.
-	if got.Kind == "modresp" {
-		m, req := got.msg, q.msg()
-		if !m.Response || m.Id != req.Id || len(m.Question) != 1 || m.Question[0] != req.Question[0] {
-			c.failf("%s asked %s: the modified response is not a reply to this request:\n%s", r.Name, &q, got)
-		}
+	// A modified message must be this request's and this requester's, unless it
+	// is the replay that has just been excluded.
+	if why := vc12OwnMessage(r, &q, got); why != "" && got.String() == want.String() {
+		c.failf("%s asked %s: %s", r.Name, &q, why)
 	}
 
 	if why := vc12ModelRequest(c.w, c.conf, r, q.Host, q.QT, got); why != "" {
@@ -498,33 +612,37 @@ func (c *vc12Case) query() {
 		c.hpSeen[hk] = append(c.hpSeen[hk], vc12HPSeen{msg: want.msg.Copy(), who: r.Name, params: r.params() + " " + q.flags()})
 	}
 
+	c.release(got, gotReq.DNS)
 	c.st.Case(nt, classes...)
+
+	if exchange && want.Kind != "modreq" {
+		c.response(ri, &q, fGot, fWant, want)
+	}
 }
 
-// response sends one upstream response through both storages.
-func (c *vc12Case) response() {
+// response sends the upstream response to q through the composite filters the
+// request went through.
+func (c *vc12Case) response(ri int, q *vc12Q, fGot, fWant filter.Interface, reqRes vc12Res) {
 	t := c.t
-	ri := rapid.IntRange(0, len(c.reqs)-1).Draw(t, "requester")
 	r := c.reqs[ri]
 
-	q := vc12Q{Host: rapid.SampledFrom(vc12Hosts).Draw(t, "host"), QT: dns.TypeA, QC: dns.ClassINET}
-	vc12DrawFlags(t, &q, true)
 	resp := (&dns.Msg{}).SetReply(q.msg())
 	resp.Answer = vc12DrawAnswers(t, q.Name)
 	items := vc12AnswerItems(resp.Answer)
 
 	mk := func() *filter.Response {
-		return &filter.Response{DNS: resp.Copy(), RemoteIP: q.request(r).RemoteIP, ClientName: r.CliName}
+		return &filter.Response{DNS: resp.Copy(), RemoteIP: q.request(r, 0).RemoteIP, ClientName: r.CliName}
 	}
 
 	ctx := context.Background()
-	gotRaw, err := c.cached.strg.ForConfig(ctx, r.config()).FilterResponse(ctx, mk())
+	gotResp := mk()
+	gotRaw, err := fGot.FilterResponse(ctx, gotResp)
 	if err != nil {
 		c.failf("cache-enabled storage: FilterResponse: %v", err)
 	}
 
 	c.twin.purge()
-	wantRaw, err := c.twin.strg.ForConfig(ctx, r.config()).FilterResponse(ctx, mk())
+	wantRaw, err := fWant.FilterResponse(ctx, mk())
 	if err != nil {
 		c.failf("reference storage: FilterResponse: %v", err)
 	}
@@ -535,7 +653,7 @@ func (c *vc12Case) response() {
 		ans = append(ans, strings.Join(strings.Fields(rr.String()), " "))
 	}
 
-	c.logf("RESPONSE %s answers %q -> %s", r.Name, ans, got.verdict())
+	c.logf("RESPONSE to %s answers %q -> %s", r.Name, ans, got.verdict())
 	c.checkErrs("response")
 
 	key := fmt.Sprintf("%v/resp", items)
@@ -543,6 +661,14 @@ func (c *vc12Case) response() {
 	classes = append(classes, "op-response")
 	if want.Kind != "nil" {
 		classes = append(classes, "response-filtered")
+		switch reqRes.Kind {
+		case "nil":
+			classes = append(classes, "exchange-request-passed-response-filtered")
+		case "allowed":
+			classes = append(classes, "exchange-request-allowed-response-filtered")
+		default:
+			classes = append(classes, "exchange-both-stages-filtered")
+		}
 	}
 
 	if got.String() != want.String() {
@@ -553,6 +679,8 @@ func (c *vc12Case) response() {
 		c.failf("answer does not follow from the current list versions: response to %s with answers %q -> %s: %s", r.Name, ans, got.verdict(), why)
 	}
 
+	// The response is the caller's again.
+	vc12Scribble(gotResp.DNS)
 	c.st.Case(nt, classes...)
 }
 
@@ -569,7 +697,8 @@ func TestVerifC12Histories(t *testing.T) {
 		"v-nil", "v-blocked", "v-allowed", "v-modresp", "v-modreq",
 		"src-custom", "src-rulelist", "src-service", "src-safesearch", "src-hashprefix",
 		"response-filtered", "op-refresh-storage", "op-refresh-hp", "op-custom-change", "op-custom-touch",
-		"hp-key-built-for-other-params")
+		"hp-key-built-for-other-params", "near-miss-qtype", "near-miss-class", "near-miss-host", "host-root", "host-off-pool",
+		"exchange-request-passed-response-filtered", "exchange-request-allowed-response-filtered", "exchange-both-stages-filtered")
 	st.Finish(t)
 
 	srv := vc12NewSrv(t)
@@ -582,10 +711,10 @@ func TestVerifC12Histories(t *testing.T) {
 		steps := rapid.IntRange(8, 40).Draw(t, "steps")
 		for range steps {
 			switch op := rapid.IntRange(0, 19).Draw(t, "op"); {
-			case op < 12:
-				c.query()
+			case op < 11:
+				c.query(false)
 			case op < 14:
-				c.response()
+				c.query(true)
 			case op < 16:
 				c.refreshStorage()
 			case op < 18:
